@@ -34,18 +34,21 @@ NLines == Len(Trace)
 VARIABLES l,        \* number of trace lines consumed
           leaders,  \* history: set of <<term, id>> ever observed as leader in this run
           gc,       \* history: global committed prefix, gc[idx] = [t, p, y] ([t |-> -1..] = not observed)
+          gct,      \* history: gct[idx] = term in which idx became committed (min term of the nodes whose commit first covered it)
           seen      \* clauses already reported in this run
-vars == <<l, leaders, gc, seen>>
+vars == <<l, leaders, gc, gct, seen>>
 
 Max(S) == CHOOSE x \in S : \A y \in S : y <= x
 Min2(a, b) == IF a < b THEN a ELSE b
 Max2(a, b) == IF a > b THEN a ELSE b
+Min(S) == CHOOSE x \in S : \A y \in S : y >= x
 
 Nodes(k) == Trace[k].n
 Idx(k) == 1..Len(Nodes(k))
 Has(nd, idx) == idx >= nd.first /\ idx <= nd.last
 E(nd, idx) == LET e == nd.log[idx - nd.first + 1] IN [t |-> e.t, p |-> e.p, y |-> e.y]
 Unknown == [t |-> -1, p |-> -1, y |-> -1]
+NoCt == 1000000
 
 (* ----------------------------- clauses -------------------------------- *)
 
@@ -97,17 +100,24 @@ Extend(k, g) ==
         ELSE LET hs == {j \in Idx(k) : Nodes(k)[j].commit >= idx /\ Has(Nodes(k)[j], idx)}
              IN IF hs = {} THEN Unknown ELSE E(Nodes(k)[CHOOSE j \in hs : \A j2 \in hs : j <= j2], idx)]
 
+ExtendCt(k, g, ct) ==
+    [idx \in 1..Max2(Len(g), MaxCommit(k)) |->
+        IF idx <= Len(ct) THEN ct[idx]
+        ELSE Min({Nodes(k)[j].term : j \in {j \in Idx(k) : Nodes(k)[j].commit >= idx}})]
+
 NeverRewrittenBad(k, g) ==
     {j \in Idx(k) :
         LET nd == Nodes(k)[j]
         IN \E idx \in nd.first..Min2(Min2(nd.commit, nd.last), Len(g)) : g[idx] # Unknown /\ E(nd, idx) # g[idx]}
 
-(* a node that is leader now and was not known as leader of that term before must hold gc (as of the previous line) *)
-LeaderCompletenessBad(k, ldrs, g) ==
+(* a node that is leader of term T now and was not known as leader of T before must hold every entry of gc (as of *)
+(* the previous line) that became committed in a term < T                                                        *)
+LeaderCompletenessBad(k, ldrs, g, ct) ==
     {j \in {j \in Idx(k) : Nodes(k)[j].up /\ Nodes(k)[j].role = "L" /\ <<Nodes(k)[j].term, Nodes(k)[j].id>> \notin ldrs} :
         LET nd == Nodes(k)[j]
         IN \E idx \in 1..Len(g) :
               /\ g[idx] # Unknown
+              /\ ct[idx] < nd.term
               /\ ~ ( \/ idx < nd.snapi
                      \/ idx = nd.snapi /\ nd.snapt = g[idx].t
                      \/ Has(nd, idx) /\ E(nd, idx) = g[idx] )}
@@ -128,7 +138,7 @@ HardStateBad(k) ==
 
 (* ----------------------------- behaviour ------------------------------ *)
 
-Init == l = 0 /\ leaders = {} /\ gc = <<>> /\ seen = {} /\ TLCSet(1, 0) /\ TLCSet(2, 0)
+Init == l = 0 /\ leaders = {} /\ gc = <<>> /\ gct = <<>> /\ seen = {} /\ TLCSet(1, 0) /\ TLCSet(2, 0)
 
 Next ==
     /\ l < NLines
@@ -136,6 +146,7 @@ Next ==
            rst == Trace[k].ev = "reset"
            ldrs == IF rst THEN {} ELSE leaders
            g0 == IF rst THEN <<>> ELSE gc
+           ct0 == IF rst THEN <<>> ELSE gct
            sn == IF rst THEN {} ELSE seen
            g1 == Extend(k, g0)
            es == ElectionSafetyBad(k, ldrs)
@@ -143,7 +154,7 @@ Next ==
            lm == LogMatchingBad(k)
            sm == StateMachineSafetyBad(k)
            nr == NeverRewrittenBad(k, g1)
-           lc == LeaderCompletenessBad(k, ldrs, g0)
+           lc == LeaderCompletenessBad(k, ldrs, g0, ct0)
            hm == HardStateBad(k)
            failed == {x \in {<<"ElectionSafety", es = {}>>, <<"WellFormed", wf = {}>>, <<"LogMatching", lm = {}>>,
                              <<"StateMachineSafety", sm = {}>>, <<"CommittedNeverRewritten", nr = {}>>,
@@ -151,6 +162,7 @@ Next ==
        IN /\ l' = k
           /\ leaders' = ldrs \cup NewLeaders(k)
           /\ gc' = g1
+          /\ gct' = ExtendCt(k, g0, ct0)
           /\ seen' = sn \cup {x[1] : x \in failed}
           /\ TLCSet(1, k)
           /\ LET R(name, set) == IF set = {} \/ name \in sn THEN TRUE
